@@ -243,7 +243,7 @@ def rule_lang_slot_eval(chk):
     return True
 
 
-def rule_group_index_eval(chk):
+def rule_group_index_eval(chk, prefix="C06.groups"):
     """Where a binding is reported: both exporters' register_binding (and the Metal layout's finish) walked on sequences
     of registrations into groups {0}, {2}, {0, 2}, {1, 3, 1}: afterwards bind_groups[g] holds exactly the bindings that
     were registered for group g, in registration order, and groups in between exist and are empty - the index into
@@ -276,7 +276,7 @@ def rule_group_index_eval(chk):
                 if "panicking" in str(e):
                     bad = bad or "registering bindings for %s aborts (%s)" % (sname, str(e)[:60])
                     continue
-                chk.note("C06.groups: %s register_binding / finish is not readable (%s)" % (tgt, str(e)[:80]))
+                chk.note("%s: %s register_binding / finish is not readable (%s)" % (prefix, tgt, str(e)[:80]))
                 return False
             got = [[b.fields["name"] for b in (g_.fields["bindings"] if isinstance(g_, I.Enum) else [])] for g_ in groups]
             want = [[] for _ in range(max(g for g, _n in seq) + 1)]
@@ -285,7 +285,7 @@ def rule_group_index_eval(chk):
             if got != want and not bad:
                 bad = "after registering %s, the %s metadata has bind_groups = %s, must be %s: a resource is reported in another group than the one the emitted source binds it in" % (
                     ["%s in group %d" % (n, g) for g, n in seq], tgt.upper(), got, want)
-        chk.ob("C06.groups/" + tgt, bad is None, bad or "bind_groups[g] holds the bindings of group g for every sequence", where(hreg if tgt == "hlsl" else mfin), sample={"target": tgt, "sequences": len(seqs)})
+        chk.ob(prefix + "/" + tgt, bad is None, bad or "bind_groups[g] holds the bindings of group g for every sequence", where(hreg if tgt == "hlsl" else mfin), sample={"target": tgt, "sequences": len(seqs)})
     return True
 
 
